@@ -293,6 +293,10 @@ func (pub *PublicKey) parseX5Chain() error {
 	}
 	pub.chain = make([]*x509.Certificate, len(certs))
 	for i, cert := range certs {
+		if cert == nil {
+			pub.chain = nil
+			return errors.New("X5CHAIN key contains a null certificate")
+		}
 		pub.chain[i] = (*x509.Certificate)(cert)
 	}
 
